@@ -378,12 +378,12 @@ def render_jobs(run, thorough):
     add("r3-random", three, 2, 5, 2, "random", num=30 * k, p=0.02)
     add("r3-pct", three, 2, 5, 2, "pct", num=30 * k, depth=3, length=3500)
     add("r2-all-lines-pct", two_pages, 2, 4, 2, "pct", all_files=True, num=8 * k, depth=3, length=20000)
-    add("r2-tiny-pb1", same_page, 1, 1, 2, "pb", bound=1, limit=100 * k * k)
-    add("r2-tiny-pb2", same_page, 1, 1, 2, "pb", bound=2, limit=60 * k * k)
+    add("r2-tiny-pb1", same_page, 1, 1, 2, "pb", bound=1, limit=2500 if thorough else 100)
+    add("r2-tiny-pb2", same_page, 1, 1, 2, "pb", bound=2, limit=2500 if thorough else 60)
     add("r2-unbounded-random", two_pages, 2, 6, 0, "random", num=20 * k, p=0.05)
     # directed: every single preemption inside TemplateLookup.adjust_uri / filename_to_uri (the URI cache is an LRU that
     # other threads trim) while the other thread renders a page that adds URI-cache entries
-    add("r2-uricache-pb1", two_pages, 2, 0, 1, "pb", bound=1, limit=400 * k,
+    add("r2-uricache-pb1", two_pages, 2, 0, 1, "pb", bound=1, limit=400,
         bodies=[[("inc",), ("inc",), ("ns",)], [("ns",), ("inc",)]],
         hot=[["lookup.py", "adjust_uri"], ["lookup.py", "filename_to_uri"]])
     return jobs
